@@ -23,7 +23,7 @@ class JoinTicketsInstruction(MichelsonInstruction, prim='JOIN_TICKETS'):
         assert isinstance(right, TicketType), f'expected ticket on the right, got {right.prim}'
         res = TicketType.join(left, right)
         if res is None:
-            res = OptionType.none(type(left))  # type: ignore
+            res = OptionType.none(left.get_anon_type())  # type: ignore
         else:
             res = OptionType.from_some(res)  # type: ignore
         stack.push(res)  # type: ignore
